@@ -6,6 +6,7 @@ import ExprModel.Proofs.ParserCanonAll2
 import ExprModel.Proofs.ParserErase5
 import ExprModel.Proofs.ParseLayout5
 import ExprModel.Proofs.ParseLexNum
+import ExprModel.Gen.UnicodeTables
 import ExprModel.Syntax.ParserNum
 import ExprModel.Props.C12
 /-
@@ -271,7 +272,8 @@ theorem parse_locations_irrelevant (cfg : Cfg) {ts ts' : List Token} (h : noLocs
     any runs of `IsSpace` runes, including none, as long as neighbouring tokens do not fuse (`NoFuse`: after an
     identifier, keyword or number no alphanumeric rune (nor `.` after a number); after `?` no `.`; after `?.` no
     `?`/`.`; after `.` no `.`/digit; after `<`, `>`, `!`, `*` none of `& | = *`; after `not` not blanks-`in`-blank;
-    after `not in` a blank or the end).  Then `lex` yields the printed tokens up to locations and `parse` yields
+    after `not in` a blank or the end — the two `not in` conditions are NOT part of the property: they record a
+    deviation of the code, known finding `c11:whitespace:not-in`, see `not_in_whitespace_witness`).  Then `lex` yields the printed tokens up to locations and `parse` yields
     `t` up to locations.  Hypothesis `hprint`: every printed token has a proved spelling (`Printable`: every operator, bracket and
     string; numbers whose text is digits, optional fraction, optional exponent; identifiers that do not collide with
     keywords — a printed member name such as `a.in` is an Identifier token that the lexer would read as an operator). -/
@@ -311,6 +313,69 @@ theorem whitespace_invariance_rule {cfg : Cfg} {sh : NumShow} (hs : Setting cfg 
       noLocs toks = noLocs (printEof cfg sh pc {} t) ∧
       parse cfg toks = .ok t' ∧ t'.eraseLoc = t.eraseLoc :=
   whitespace_invariance hs t hc pc cc hcc gaps trail hlen hprint (layout_rule cc hcc hsw _ gaps trail hlen hprint hsep)
+
+/-! #### … at the classification of runes regenerated from Go's `unicode` tables -/
+
+/-- the classification dumped from the Go toolchain agrees with the ASCII tables below U+0080 -/
+theorem go_charclass_ascii_exact : Gen.goCharClass.AsciiExact := Lex.CharClass.ofRanges_asciiExact _ _ _
+
+private theorem go_spaces_enum (n : Nat) (h : Lex.CharClass.inRanges Gen.unicodeSpace n = true) :
+    n ∈ [9,10,11,12,13,32,133,160,5760,8192,8193,8194,8195,8196,8197,8198,8199,8200,8201,8202,8232,8233,8239,8287,12288] := by
+  simp only [Lex.CharClass.inRanges, Gen.unicodeSpace, List.any_cons, List.any_nil, Bool.or_false, Bool.or_eq_true,
+    Bool.and_eq_true, decide_eq_true_eq, beq_iff_eq] at h
+  simp only [List.mem_cons, List.mem_nil_iff, or_false]
+  omega
+
+/-- no rune that `unicode.IsSpace` accepts is a letter, a digit, `_` or `$` -/
+theorem go_charclass_space_not_word : SpaceNotWord Gen.goCharClass := by
+  intro x hx
+  by_cases h : x.toNat < 128
+  · have hs := go_charclass_ascii_exact.space x h
+    rw [hs] at hx
+    unfold Lex.CharClass.isAlphaNumeric Lex.CharClass.isAlphabetic
+    rw [go_charclass_ascii_exact.letter x h, go_charclass_ascii_exact.digit x h]
+    have hb : ∀ n : Fin 128, Lex.CharClass.asciiSpace (Char.ofNat n.val) = true →
+      ((Char.ofNat n.val == '_' || Char.ofNat n.val == '$' || Lex.CharClass.asciiLetter (Char.ofNat n.val)) ||
+        Lex.CharClass.asciiDigit (Char.ofNat n.val)) = false := by decide +kernel
+    have := hb ⟨x.toNat, h⟩
+    simp only [Char.ofNat_toNat] at this
+    exact this hx
+  · have hsp : Lex.CharClass.inRanges Gen.unicodeSpace x.toNat = true := by
+      simpa [Gen.goCharClass, Lex.CharClass.ofRanges, h] using hx
+    have hm := go_spaces_enum _ hsp
+    have hall : ∀ n ∈ [9,10,11,12,13,32,133,160,5760,8192,8193,8194,8195,8196,8197,8198,8199,8200,8201,8202,8232,8233,8239,8287,12288],
+        128 ≤ n → (n ≠ 95 ∧ n ≠ 36 ∧ Lex.CharClass.inRanges Gen.unicodeLetter n = false ∧
+          Lex.CharClass.inRanges Gen.unicodeDigit n = false) := by
+      decide +kernel
+    obtain ⟨h1, h2, h3, h4⟩ := hall _ hm (by omega)
+    have e1 : (x == '_') = false := by
+      apply beq_false_of_ne; intro he; apply h1; rw [he]; rfl
+    have e2 : (x == '$') = false := by
+      apply beq_false_of_ne; intro he; apply h2; rw [he]; rfl
+    simp [Lex.CharClass.isAlphaNumeric, Lex.CharClass.isAlphabetic, Gen.goCharClass, Lex.CharClass.ofRanges, h, h3, h4, e1, e2]
+
+/-- **whitespace_invariance at the generated tables**: the rule theorem for the rune classification dumped from
+    Go's `unicode` package (`Gen.goCharClass`), the lexer tables regenerated from the lexer source
+    (`Gen.lexTables`), and the parser configuration of `lexnum_setting` (tables from parser.go, integers through
+    the lexer model's parseNumber with the chain regenerated from parser.go; strconv.ParseFloat/FormatFloat a
+    parameter `pf`/`sf`). -/
+theorem whitespace_invariance_go (pf : String → Option UInt64) (sf : UInt64 → String) (bad : String → Bool)
+    (hpf : ∀ text b, pf text = some b → floatLit b = true)
+    (hfloat : ∀ b, floatLit b = true → guardedNum Gen.numCfg pf (sf b) = some (.float b))
+    (t : Node) (pc : ParenChoice) (gaps : List (List Char)) (trail : List Char) :
+    let cfg : Cfg := { tb := Gen.parserTables, num := guardedNum Gen.numCfg pf, badRegex := bad }
+    let sh : NumShow := { showInt := fun n => C12.decimalSpelling n [], showFloat := sf }
+    canon cfg 0 t = true →
+    (pr cfg sh pc [] 0 (eofAt {}) t).length = gaps.length →
+    (∀ x ∈ pr cfg sh pc [] 0 (eofAt {}) t, Printable Gen.goCharClass x) →
+    SepOK Gen.goCharClass (pr cfg sh pc [] 0 (eofAt {}) t) gaps trail →
+    ∃ toks t', Lex.lex Gen.goCharClass Gen.lexTables
+        (String.ofList (Lex.renderItems (layoutItems (pr cfg sh pc [] 0 (eofAt {}) t) gaps) trail)) = .ok toks ∧
+      noLocs toks = noLocs (printEof cfg sh pc {} t) ∧
+      parse cfg toks = .ok t' ∧ t'.eraseLoc = t.eraseLoc := by
+  intro cfg sh hc hlen hprint hsep
+  exact whitespace_invariance_rule (lexnum_setting pf sf bad hpf hfloat).1 t hc pc Gen.goCharClass
+    go_charclass_ascii_exact go_charclass_space_not_word gaps trail hlen hprint hsep
 
 /-- **Number spellings**: digits (with `_` separators), an optional fraction and an optional exponent with at
     least one digit — decimal integers and every decimal/exponent float spelling — are read back by the lexer
@@ -503,6 +568,81 @@ example : ∃ toks t', Lex.lex Lex.CharClass.ascii Gen.lexTables "a?.b+not\tc\n"
       wsGaps) ['\n']) = "a?.b+not\tc\n" := by decide +kernel
   rw [this] at h1
   exact h1
+
+/-! #### `whitespace_invariance_go` on a text with a number, a string, a no-break space and an ideographic space -/
+
+def goTree : Node := .binary {} "+" (.int {} 42) (.str {} "s")
+
+/-- `42<U+00A0>+<U+3000>"\U00000073"<U+2028>` lexes (Go's rune classes, generated tables) and parses to `42 + "s"`
+    up to locations — whatever strconv.ParseFloat/FormatFloat (`pf`, `sf`) are, as long as they satisfy the two
+    float hypotheses of `lexnum_setting`. -/
+theorem whitespace_invariance_go_instance (pf : String → Option UInt64) (sf : UInt64 → String)
+    (hpf : ∀ text b, pf text = some b → floatLit b = true)
+    (hfloat : ∀ b, floatLit b = true → guardedNum Gen.numCfg pf (sf b) = some (.float b)) :
+    ∃ toks t', Lex.lex Gen.goCharClass Gen.lexTables "42\u00a0+\u3000\"\\U00000073\"\u2028" = .ok toks ∧
+      parse { tb := Gen.parserTables, num := guardedNum Gen.numCfg pf, badRegex := fun _ => false } toks = .ok t' ∧
+      t'.eraseLoc = goTree.eraseLoc := by
+  have htoks : pr { tb := Gen.parserTables, num := guardedNum Gen.numCfg pf, badRegex := fun _ => false }
+      { showInt := fun n => C12.decimalSpelling n [], showFloat := sf } (fun _ => 0) [] 0 (eofAt {}) goTree =
+      [tok .number "42", tok .operator "+", tok .string "s"] := by
+    have h42 : C12.decimalSpelling 42 [] = "42" := by decide +kernel
+    simp [pr, parenthesize, needParens, body, goTree, Gen.parserTables, Gen.binaryOperators, lprec, rprec, h42, tok,
+      List.lookup]
+  have h := whitespace_invariance_go pf sf (fun _ => false) hpf hfloat goTree (fun _ => 0)
+    [[], ['\u00a0'], ['\u3000']] ['\u2028'] (by simp [canon, goTree, inv, Gen.parserTables, Gen.binaryOperators])
+    (by rw [htoks]; rfl)
+    (by
+      rw [htoks]
+      intro x hx
+      simp only [List.mem_cons, List.mem_nil_iff, or_false] at hx
+      rcases hx with rfl | rfl | rfl
+      · refine ⟨⟨'4', ['2'], none, none⟩, ⟨(by decide), (by decide), (by intro fs h; cases h),
+          (by intro e sg xs h; cases h)⟩, (by intro e sg xs h; cases h), (by decide)⟩
+      · show "+" ∈ opValues; decide
+      · trivial)
+    (by
+      rw [htoks]
+      have sp : ∀ l : List Char, l.all Gen.goCharClass.isSpace = true → ∀ c ∈ l, Gen.goCharClass.isSpace c = true :=
+        fun l h c hc => List.all_eq_true.mp h c hc
+      refine ⟨sp _ (by decide +kernel), ?_, sp _ (by decide +kernel), ?_, sp _ (by decide +kernel), ?_,
+        sp _ (by decide +kernel)⟩
+      · exact ⟨fun h => absurd h.1 (by decide), fun h => absurd h.1 (by decide), fun _ _ hg => absurd hg (by decide)⟩
+      · exact ⟨fun h => absurd h.2 (by decide), fun h => absurd h.2 (by decide), fun _ _ hg => absurd hg (by decide)⟩
+      · intro h; exact absurd h.1 (by decide))
+  obtain ⟨toks, t', h1, _, h3, h4⟩ := h
+  refine ⟨toks, t', ?_, h3, h4⟩
+  rw [htoks] at h1
+  have htext : String.ofList (Lex.renderItems (layoutItems [tok .number "42", tok .operator "+", tok .string "s"]
+      [[], ['\u00a0'], ['\u3000']]) ['\u2028']) = "42\u00a0+\u3000\"\\U00000073\"\u2028" := by decide +kernel
+  rw [htext] at h1
+  exact h1
+
+/-! #### the `not in` deviation (known finding `c11:whitespace:not-in`) on the model -/
+
+/-- the kinds and values the lexer model produces, and whether the parser model accepts them -/
+def lexParse (src : String) : Option (List (TokKind × String) × Bool) :=
+  match Lex.lex Lex.CharClass.ascii Gen.lexTables src with
+  | .ok toks => some (toks.map (fun t => (t.kind, t.value)),
+      match parse demoCfg toks with | .ok _ => true | .error _ => false)
+  | .error _ => none
+
+/-- **Witness**: white space other than U+0020 inside or after `not in` changes the outcome.  `a not in b` is one
+    operator token `not in` and parses; with a TAB or a line feed between the words the lexer yields the two
+    operators `not`, `in` and the parser rejects; with a line feed (or `[`) right after `in` likewise.  This is the
+    behaviour of lexer.acceptWord, mirrored by the model; it is why `tokOk`/`PairOK` carry the `not in`
+    conditions, which are a listed deviation of the code and not part of the property. -/
+theorem not_in_whitespace_witness :
+    lexParse "a not in b" = some ([(.identifier, "a"), (.operator, "not in"), (.identifier, "b"), (.eof, "")], true) ∧
+    lexParse "a not\tin b" =
+      some ([(.identifier, "a"), (.operator, "not"), (.operator, "in"), (.identifier, "b"), (.eof, "")], false) ∧
+    lexParse "a not\nin b" =
+      some ([(.identifier, "a"), (.operator, "not"), (.operator, "in"), (.identifier, "b"), (.eof, "")], false) ∧
+    lexParse "a not in\nb" =
+      some ([(.identifier, "a"), (.operator, "not"), (.operator, "in"), (.identifier, "b"), (.eof, "")], false) ∧
+    lexParse "a not in[b]" =
+      some ([(.identifier, "a"), (.operator, "not"), (.operator, "in"), (.bracket, "["), (.identifier, "b"),
+        (.bracket, "]"), (.eof, "")], false) := by
+  refine ⟨?_, ?_, ?_, ?_, ?_⟩ <;> decide +kernel
 
 def identNs : Outcome → Option Bool
   | .ok (.ident _ _ ns) => some ns
